@@ -49,7 +49,15 @@ def check(prop, tier, seed):
             except Undecided as e:
                 si = V.bounded_standin(prop, u, e)
                 if si is None:
-                    raise
+                    # The verifier could not process this unit and its stand-in search found nothing: the unit stays
+                    # UNDECIDED (exit 2 at best), but the other units of the property still run - a refutation by one
+                    # of them (e.g. the bounded native unit on the same function) is a violation in its own right.
+                    log(f"[verus] {u['name']}: UNDECIDED by the verifier ({str(e).splitlines()[0][:200]}); continuing with the other units")
+                    results.append({"unit": u["name"], "tool": "verus", "backend": "verus/z3", "harness": None,
+                                    "function": f"unit {u['name']}", "location": None, "clause": "", "kind": "complete",
+                                    "status": "undecided", "reason": str(e)[:600], "checks_total": 0, "checks_passed": 0,
+                                    "failed_checks": [], "time_s": 0, "solver_s": 0})
+                    continue
                 log(f"[verus] {u['name']}: UNDECIDED by the verifier ({str(e).splitlines()[0][:160]}); "
                     f"bounded stand-in (native search on the real code) found a failing sequence")
                 standins.append(si)
